@@ -6,6 +6,7 @@ RULE = ("Direction 1: encodings computed by TLC from Enc.tla (independent layout
         "must accept, consume exactly, and expose through its public accessors exactly the field values the reference decoder (Structs.tla) "
         "reads from the same bytes. Direction 2: model values (records) handed to every non-signing constructor; the produced bytes are decoded "
         "by the reference decoder and compared with the model field by field. Non-trivial = a field comparison was evaluated for the event.")
+RULE += (' Accessors are re-observed after every read-only query has been called (query stability); option sets include hash-collision, UTF-16-order and prefix keys; caps/version accessors, certificate key-type getters, MetaLeaseSet GetEntry/FindEntriesByType.')
 ASSUME = [common.TRUSTED, "MetaLeaseSet is specified in the layout this library documents (entry = hash, type, expires, cost, properties)",
           "only well-formed encodings of library-supported key types are demanded to be accepted"]
 META = {
